@@ -97,6 +97,67 @@ def _c10(tier):
 CHECKS["C10"] = _c10
 
 
+def parse_tsan(stderr_text):
+    """returns list of (key, first_lines) for race reports that have a library frame"""
+    import re
+    out = {}
+    for blk in stderr_text.split("=================="):
+        if "ThreadSanitizer: data race" not in blk:
+            continue
+        frames = re.findall(r"#\d+ (\S+) (\S+)", blk)
+        libframes = [f for f, loc in frames if "/repo/src/" in loc or "repo/src" in loc]
+        if not libframes:
+            continue
+        m = re.search(r"Location is global '([^']+)'", blk)
+        loc = m.group(1) if m else "?"
+        top = sorted(set(libframes[:4]))[:3]
+        key = "tsan-race|%s|%s" % (loc, "+".join(top))
+        out.setdefault(key, blk.strip()[:1200])
+    return out
+
+
+def _c12(tier):
+    t0 = time.time()
+    res = Results("C12")
+    # footprint monitor: every engine-style harness linked against the shared (-z now) build
+    jobs = []
+    for h, nw in (("engine", 8), ("queries", 4), ("tok", 2), ("sortsearch", 2)):
+        jobs += harness_jobs(h, "C12", tier, ["shared"], nw=nw)
+    run_workers(jobs, res)
+    fp_checks = res.counters.get("footprint_checks", 0)
+    # interference monitor
+    li = build.build_lib("plain"); exe = build.build_harness(li, "threads", ["threads.c"])
+    reps = 5 if tier == "thorough" else 2
+    run_workers([("threads/plain/%d" % i, [exe, "--prop", "C12", "--tier", tier, "--seed", str(seed() * 8 + i), "--cfg", "plain"]) for i in range(reps)], res)
+    # race detector (separate build)
+    lt = build.build_lib("tsan"); ext = build.build_harness(lt, "threads", ["threads.c"])
+    env = dict(os.environ, TSAN_OPTIONS="halt_on_error=0:report_signal_unsafe=0:history_size=4")
+    outs = run_workers([("threads/tsan/%d" % i, [ext, "--prop", "C12", "--tier", "quick", "--seed", str(seed() * 8 + i), "--cfg", "tsan"]) for i in range(reps)], res, env=env)
+    races = {}
+    for label, rc, out, err, dt in outs:
+        races.update(parse_tsan(err))
+    # run_workers keeps only the stderr tail: re-read is not possible, so tsan stderr is parsed from the tail it returns
+    for k, blk in races.items():
+        res.add_violation("C12", "C12|" + k, "ThreadSanitizer reports a data race inside the library between calls on thread-private data: " + blk[:500].replace("\n", " | "),
+                          dict(harness="threads", cfg="tsan", report=blk[:1200], replay="threads --cfg tsan --tier quick"))
+    res.evaluations = fp_checks + res.counters.get("thread_calls", 0)
+    floor_ok = fp_checks > 1000 and res.counters.get("calls_overlapping_same_function", 0) > 100
+    return finish(res, tier, "exploration",
+                  "footprint: every call made by the engine/queries/tok/sortsearch workloads against the shared build is bracketed by a byte snapshot of the library's .data/.bss "
+                  "(handler variables excluded); interference: 8 and 16 threads x 12 call kinds (sorting incl. >256-byte elements, asctime_s/ctime_s, %Lf, %f>1e9, wide no-space, "
+                  "copies, formatting, tokenising) on thread-private data with thread-tagged expectations; race detector: same binary under -fsanitize=thread; "
+                  "distinct = (function, whether same-function overlap was observed) + engine class signatures", t0,
+                  extra_cov=dict(builds=["shared", "plain", "tsan"], harnesses=["engine", "queries", "tok", "sortsearch", "threads"], footprint_checks=fp_checks,
+                                 thread_calls=res.counters.get("thread_calls", 0), calls_overlapping_same_function=res.counters.get("calls_overlapping_same_function", 0),
+                                 tsan_distinct_reports=len(races)),
+                  assumptions=["static storage inside libc reached by the library (asctime, getenv, locale) is invisible to the footprint monitor and to TSan",
+                               "interleavings are those the scheduler produced; overlap counts are reported, no enumeration"],
+                  min_evals=1000, floor_ok=floor_ok, floor_msg="footprint checks %d, overlapping calls %d" % (fp_checks, res.counters.get("calls_overlapping_same_function", 0)))
+
+
+CHECKS["C12"] = _c12
+
+
 def _c13(tier):
     t0 = time.time()
     res = Results("C13")
